@@ -383,6 +383,27 @@ func buildLeaves() []*Leaf {
 				}
 				return rv(m)
 			}},
+		{Name: "map[int]string", Type: reflect.TypeOf(map[int]string{}), Caps: CapEnv | CapRef,
+			Text: func(v reflect.Value) string {
+				m := v.Interface().(map[int]string)
+				keys := make([]int, 0, len(m))
+				for k := range m {
+					keys = append(keys, k)
+				}
+				sort.Ints(keys)
+				p := []string{}
+				for _, k := range keys {
+					p = append(p, strconv.Itoa(k)+":"+strconv.Quote(m[k]))
+				}
+				return strings.Join(p, ",")
+			},
+			Gen: func(r *fw.Rand, uniq int) reflect.Value {
+				m := map[int]string{}
+				for i := r.Range(1, 3); i > 0; i-- {
+					m[uniq*10+i] = GenString(r, uniq*10+i)
+				}
+				return rv(m)
+			}},
 		{Name: "set", Type: reflect.TypeOf(map[string]struct{}{}), Caps: all | CapRef,
 			Text: func(v reflect.Value) string {
 				m := v.Interface().(map[string]struct{})
